@@ -598,7 +598,7 @@ def _rechunk(func, obj, dim, labels, **kwargs):
 
     if isinstance(obj, xr.Dataset):
         for var in obj:
-            if obj[var].chunks is not None:
+            if obj[var].chunks is not None and dim in obj[var].dims:
                 obj[var] = obj[var].copy(
                     data=func(
                         obj[var].data,
